@@ -3,6 +3,7 @@ import build
 
 H = build.register_harness
 H('gp', ['gp.c'])
+H('bpreg', ['bpreg.c'], ldflags=['-Wl,--wrap=mremap', '-Wl,--wrap=mmap'])
 
 PROPS = {}
 FLAVORS = ['memb', 'mb', 'qsbr', 'bp']
@@ -165,6 +166,50 @@ def c02(tier, seed):
                     ['--cfg=memb-nomb-mixed', '--scenarios=%d' % (120 * scale), '--readers=3', '--updaters=3', '--gps=120',
                      '--reader-sections=400', '--tun-qs=2', '--tun-wait=2', '--f-spurious=0.1', '--f-eintr=0.1'],
                     {'VP_NO_MEMBARRIER': '1'}, cpus=4, timeout=200 * scale))
+    return out
+
+
+# --------------------------------------------------------------------------------------------
+# C15
+
+@prop('C15', 'Reader registration is dynamic: threads come and go without breaking GPs', 'exploration',
+      'memb/mb/qsbr: reader threads loop register -> sections -> unregister (qsbr also offline/online) against '
+      'continuous grace periods with delays injected inside register/unregister and in the registry-unlocked window; '
+      'C01 oracles (poison, interval, message passing) + completion accounting + registry census decide. '
+      'bp: waves of threads cross the 8/16/32/... capacities with natural, forced-new-chunk and in-place registry growth; '
+      'slot address stability, slot ownership, arena census under the registry lock, slot reuse and signal masks are '
+      'checked. evaluation = grace period (gp harness) or wave census (bpreg); distinct = (configuration, '
+      '#pre-existing readers, leader/merged, spun/slept) resp. (growth mode, live count, #chunks, capacity).',
+      ['C01/C02 assumptions', 'bp arena growth in place is produced by shimming mmap() so that free address space '
+       'follows the chunk; growth by new chunk by making mremap() fail'])
+def c15(tier, seed):
+    out = []
+    scale = 1 if tier == 'quick' else 20
+    for name, fl, env, extra in GP_CFGS[:4]:
+        out.append(case('churn-%s' % name, 'gp', fl, 'plain',
+                        ['--cfg=churn-%s' % name, '--readers=5', '--updaters=2', '--gps=%d' % (3000 * scale), '--churn=1',
+                         '--tun-qs=%d' % (2 + seed % 3), '--hook-prob=0.004'] + extra, env, cpus=8, timeout=240 * scale))
+        out.append(case('churn-scen-%s' % name, 'gp', fl, 'plain',
+                        ['--cfg=churn-scen-%s' % name, '--scenarios=%d' % (150 * scale), '--readers=4', '--updaters=2',
+                         '--gps=80', '--reader-sections=150', '--churn=1', '--tun-qs=2', '--tun-wait=2',
+                         '--hook-prob=0.01'] + extra, env, cpus=6, timeout=240 * scale))
+    for fl in ('memb', 'qsbr'):
+        out.append(case('churn-tsan-%s' % fl, 'gp', fl, 'tsan',
+                        ['--cfg=churn-tsan-%s' % fl, '--readers=3', '--updaters=2', '--gps=%d' % (400 * scale), '--churn=1',
+                         '--stall-ms=60000'], {}, cpus=6, timeout=400 * scale))
+        out.append(case('churn-asan-%s' % fl, 'gp', fl, 'asan',
+                        ['--cfg=churn-asan-%s' % fl, '--readers=4', '--updaters=2', '--gps=%d' % (1000 * scale), '--churn=1'],
+                        {}, cpus=6, timeout=400 * scale))
+    maxlive = 260 if tier == 'quick' else 560
+    for growth in (0, 1, 2):
+        out.append(case('bp-waves-growth%d' % growth, 'bpreg', 'bp', 'plain',
+                        ['--growth=%d' % growth, '--max-live=%d' % maxlive, '--repeats=%d' % (3 * scale)], {}, cpus=8, timeout=300 * scale))
+    out.append(case('bp-waves-asan', 'bpreg', 'bp', 'asan', ['--growth=1', '--max-live=%d' % (maxlive // 2)], {}, cpus=8,
+                    timeout=400 * scale))
+    out.append(case('bp-waves-tsan', 'bpreg', 'bp', 'tsan', ['--growth=2', '--max-live=%d' % (maxlive // 3), '--sig=0'], {}, cpus=8,
+                    timeout=400 * scale))
+    out.append(case('bp-waves-nomb', 'bpreg', 'bp', 'plain', ['--growth=0', '--max-live=%d' % maxlive],
+                    {'VP_NO_MEMBARRIER': '1'}, cpus=8, timeout=300 * scale))
     return out
 
 
